@@ -44,6 +44,7 @@ type generator struct {
 	script   []Op
 	// defrag driving state
 	dMovesLeft int
+	ignBlock   int // core3: memory id of the block that got ignored moves in the current pass, or -1
 	keep       map[int]bool
 	poolTried  map[int]bool
 }
@@ -181,6 +182,10 @@ func newGenerator(prof string, r *rng, maxOps int) *generator {
 	case "core2":
 		g.weights = []wop{{"alloc", 18}, {"lalloc", 10}, {"allocm", 8}, {"palloc", 18}, {"allocn", 5}, {"free", 22}, {"freen", 3},
 			{"map", 6}, {"unmap", 6}, {"rw", 3}, {"flush", 5}, {"inval", 3}, {"mkpool", 5}, {"rmpool", 2}, {"stats", 2}, {"fault", 3}}
+	case "core3":
+		g.weights = []wop{{"alloc", 12}, {"palloc", 14}, {"allocm", 4}, {"free", 20}, {"rw", 5}, {"map", 3}, {"unmap", 3}, {"mkpool", 3},
+			{"rmpool", 1}, {"defragc", 24}, {"cbuf", 8}, {"cimg", 8}, {"dres", 10}, {"rawres", 4}, {"ares", 4}, {"bind", 4}, {"rdres", 2},
+			{"allocn", 2}, {"freen", 1}, {"stats", 1}, {"faultc", 2}, {"flush", 2}}
 	default:
 		g.prof = "basic"
 		g.weights = []wop{{"alloc", 40}, {"free", 30}}
@@ -713,10 +718,19 @@ func (g *generator) next(w *World) (Op, bool) {
 	}
 	// a pass in progress is driven to its end with high priority
 	if d := g.activeDefrag(w); d >= 0 && (w.defrag[d].inPass && g.r.chance(85) || g.r.chance(55)) {
+		if g.prof == "core3" {
+			return g.genDefragCore(w)
+		}
 		return g.genDefrag(w)
 	}
 	if g.prof == "gran" && g.emitted < 3 && w.cfg.Dev.Granularity > 256 && g.r.chance(40) {
 		g.script = g.granPreamble(w)
+		if len(g.script) > 0 {
+			return g.next(w)
+		}
+	}
+	if g.prof == "core3" && g.emitted < 3 && g.r.chance(50) {
+		g.script = g.defragPreamble(w)
 		if len(g.script) > 0 {
 			return g.next(w)
 		}
@@ -726,6 +740,16 @@ func (g *generator) next(w *World) (Op, bool) {
 		g.script = g.defragPreamble(w)
 		if len(g.script) > 0 {
 			return g.next(w)
+		}
+	}
+	if w.pendingFault != nil && (g.prof == "core" || g.prof == "core2" || g.prof == "core3") && g.r.chance(75) {
+		// an armed fault is wasted on an op that makes no driver call: prefer ops that do
+		names := []string{"lalloc", "allocm", "map", "rw", "mkpoolt", "lalloc", "allocn", "cbuf"}
+		if g.prof == "core" {
+			names = names[:7]
+		}
+		if op, ok := g.genNamed(w, names[g.r.intn(len(names))]); ok {
+			return op, true
 		}
 	}
 	total := 0
@@ -992,6 +1016,12 @@ func (g *generator) genNamed(w *World, name string) (Op, bool) {
 		}
 	case "mkpoolt", "palloct", "fault":
 		return g.genCore(w, name)
+	case "defragc":
+		return g.genDefragCore(w)
+	case "faultc": // the model does not cover a fault inside a defragmentation pass
+		if g.activeDefrag(w) < 0 {
+			return g.genCore(w, "fault")
+		}
 	}
 	return Op{}, false
 }
@@ -1080,6 +1110,9 @@ func coreCfg(prof string, r *rng) WorldCfg {
 	if r.chance(20) {
 		c.LargeBlock = r.pick(64, 256) * kib // only matters for heaps above 1 GiB (none here): must stay unobservable
 	}
+	if prof == "core3" {
+		c.Dev.Granularity = r.pick(1, 1, 16, 64, 256, 512, 1024, 4096)
+	}
 	if prof != "core" && r.chance(75) {
 		c.Dev.API = r.pick(11, 12)
 		c.Dev.BudgetExt = r.chance(85)
@@ -1111,7 +1144,7 @@ func (g *generator) genCore(w *World, name string) (Op, bool) {
 			return Op{}, false
 		}
 		kind := r.pick(-1, -1, -1, 0, 2)
-		k := r.rangeIncl(1, 3)
+		k := r.pick(1, 1, 1, 2, 3)
 		result := r.pick(0, 0, 0, simvk.ResOutOfDeviceMemory, simvk.ResOutOfHostMemory, simvk.ResTooManyObjects, simvk.ResMemoryMapFailed)
 		sticky := 0
 		if r.chance(30) {
@@ -1120,4 +1153,34 @@ func (g *generator) genCore(w *World, name string) (Op, bool) {
 		return mkOp("fault", kind, k, result, sticky), true
 	}
 	return Op{}, false
+}
+
+// genDefragCore drives a defragmentation run like genDefrag, but keeps the run inside what the model determines:
+// the real code moves the blocks with ignored moves to the front in Go map iteration order, so at most one block
+// gets ignored moves per pass.
+func (g *generator) genDefragCore(w *World) (Op, bool) {
+	r := g.r
+	d := g.activeDefrag(w)
+	if d < 0 || !w.defrag[d].inPass {
+		g.ignBlock = -1
+		return g.genDefrag(w)
+	}
+	di := &w.defrag[d]
+	if g.dMovesLeft < 0 {
+		g.dMovesLeft = len(di.moves)
+		g.ignBlock = -1
+	}
+	for g.dMovesLeft > 0 {
+		g.dMovesLeft--
+		i := g.dMovesLeft
+		if x := r.intn(100); x < 15 {
+			if g.ignBlock < 0 || g.ignBlock == di.moves[i].srcBlock {
+				g.ignBlock = di.moves[i].srcBlock
+				return mkOp("dmove", d, i, mvIgnore), true
+			}
+		} else if x < 28 {
+			return mkOp("dmove", d, i, mvDestroy), true
+		}
+	}
+	return mkOp("dend", d), true
 }
